@@ -131,16 +131,33 @@ def scratch():
         shutil.rmtree(d, ignore_errors=True)
 
 
+class _Capture(logging.Handler):
+    def __init__(self):
+        super().__init__(level=logging.DEBUG)
+        self.records = []
+
+    def emit(self, record):
+        try:
+            self.records.append((record.levelname, record.getMessage()))
+        except Exception:
+            self.records.append((record.levelname, str(record.msg)))
+
+
 @contextlib.contextmanager
 def quiet():
-    """Silence the library's prints/log lines (they are not observations we use)."""
+    """Silence the library's prints; log records are captured (the library reports swallowed
+    CastErrors only through logging.error) and yielded as handler.records."""
     out, err = io.StringIO(), io.StringIO()
-    lvl = logging.root.manager.disable
-    logging.disable(logging.CRITICAL)
+    root = logging.getLogger()
+    old_handlers, old_level = root.handlers[:], root.level
+    cap = _Capture()
+    root.handlers[:] = [cap]
+    root.setLevel(logging.WARNING)
     with warnings.catch_warnings():
         warnings.simplefilter('ignore')
         with contextlib.redirect_stdout(out), contextlib.redirect_stderr(err):
             try:
-                yield out, err
+                yield cap
             finally:
-                logging.disable(lvl)
+                root.handlers[:] = old_handlers
+                root.setLevel(old_level)
